@@ -145,6 +145,15 @@ CLAIMED["C03"] = _entry(
     "static analysis: exception-escape, loop progress on the CFG, guard dominance of consume markers, closed-form comparison of alignment padding, contradiction rule",
 )
 
+CLAIMED["C02"] = _entry(
+    "Static analysis decides the structural conditions of grid-equivalent composition: finalised-canvas guards on every mutator; no mutation of canvases or shard/cview lists that are shared "
+    "with an operand (operands stay unchanged); cursor/pop-up coordinates translated by exactly the placement offset in every composition primitive, with the running offset of "
+    "CanvasCombine/CanvasJoin recorded for the child and advanced by that child's extent; unit discipline in canvas.py; the attribute of the space replacing a cut wide character taken from "
+    "just outside the kept range. Cell-for-cell equality with a grid model and content_delta round trips are value statements about the shard algebra and are not decided (level 'other').",
+    "DESIGN.md section 3, C02; engines E7, E6, E2",
+    "static analysis: guard dominance, canvas/list freshness dataflow on the CFG, canonical-form comparison of coordinate translations with placement offsets",
+)
+
 _PENDING = "check not built yet in this session (planned per DESIGN.md section 3); listed here until its static rules exist and pass on the pinned tree"
 NOT_APPLICABLE = {pid: _PENDING for pid in [f"C{i:02d}" for i in range(1, 21)] if pid not in CLAIMED and pid != "C07"}
 NOT_APPLICABLE["C07"] = (
